@@ -1,10 +1,13 @@
 (** Correspondence for C20: the harness writes (matrix, rows argument, determinant outcome of the real
     [mod_bareiss_determinant] (through the hook), outcome of the real [matrix_inverse]); the model of
-    Model/Matrix.v is evaluated on the same matrix at the secp256k1 group order. *)
+    Model/Matrix.v is evaluated on the same matrix at the secp256k1 group order.
+    The last component is a budget flag set by checks/c20.py: [true] = the inverse is evaluated in Coq
+    as well, [false] = only the determinant is (a 256-bit [Z.modulo] costs ~7 ms under vm_compute, so
+    an 8x8 inverse takes ~90 s in the model; the quick tier evaluates inverses up to 6x6). *)
 From SL Require Import Lib.Base Model.Matrix.
 Local Open Scope Z_scope.
 
-Definition case : Type := (mat * nat * outcome Z * outcome mat)%type.
+Definition case : Type := (mat * nat * outcome Z * outcome mat * bool)%type.
 
 Definition q : Z := secp256k1_q.
 
@@ -19,8 +22,9 @@ Definition outcome_eqb {A} (eqb : A -> A -> bool) (x y : outcome A) : bool :=
 Definition mat_eqb : mat -> mat -> bool := list_eqb (list_eqb Z.eqb).
 
 Definition check_case (c : case) : bool :=
-  let '(m, rows, d, inv) := c in
-  outcome_eqb Z.eqb (bareiss q m rows) d && outcome_eqb mat_eqb (matrix_inverse q m rows) inv.
+  let '(m, rows, d, inv, full) := c in
+  outcome_eqb Z.eqb (bareiss q m rows) d &&
+  (if full then outcome_eqb mat_eqb (matrix_inverse q m rows) inv else true).
 
 Definition model_out (c : case) : outcome Z * outcome mat :=
-  let '(m, rows, _, _) := c in (bareiss q m rows, matrix_inverse q m rows).
+  let '(m, rows, _, _, _) := c in (bareiss q m rows, matrix_inverse q m rows).
